@@ -1149,9 +1149,9 @@ def sun_compact(U, rtol=1e-12, atol=1e-12):
         raise ValueError("The input matrix is not unitary.")
 
     # if Unitary, factorize into phase times Special Unitary
-    SU = U.copy()
+    SU = np.array(U, dtype=complex)
     if not np.isclose(det, 1, rtol=rtol, atol=atol):
-        SU *= det ** (-1 / n)
+        SU *= complex(det) ** (-1 / n)
         global_phase = np.angle(det)
 
     # Decompose the matrix
